@@ -76,7 +76,7 @@ package fasthttp
 
 // isValidHeaderKey: a key is valid when it is non-empty and made of token characters and spaces.
 //@ func isValidHeaderKey results valid innerSpace
-//@   property C08 C09
+//@   property C08
 //@   pure
 //@   ensures[def] valid == (len(a) > 0 && forall j in [0, len(a)): a[j] == ' ' || istchar(a[j]))
 //@   loop 1:
@@ -85,7 +85,7 @@ package fasthttp
 // readLine: the next line of the block (without its line terminator), or nil when no '\n' is left; the read
 // position only moves forward and stays inside the block.
 //@ func headerScanner.readLine results line
-//@   property C08 C09
+//@   property C08
 //@   requires[position-in-block] 0 <= s.r && s.r <= len(s.b)
 //@   modifies s
 //@   ensures[advances-inside] old(s.r) <= s.r && s.r <= len(s.b) && sameSlice(s.b, old(s.b))
